@@ -331,13 +331,13 @@ Definition row_of (ty : tstate) (t : trav) : jv :=
   | DEdge => elem_row "edge" (t_cur t)
   | DCount => JMap [("count", JNum (Z.of_N (t_count t) # 1))]
   | DSel => JMap [("selections",
-              JMap (flat_map (fun kv => match get_assoc (fst kv) (snd ty), snd kv with
+              JMap (fold_right (fun kv acc => ins_key (fst kv) (snd kv) acc) [] (flat_map (fun kv => match get_assoc (fst kv) (snd ty), snd kv with
                                         | Some DVertex, Some e => [(fst kv, elem_row "vertex" (Some e))]
                                         | Some DEdge, Some e => [(fst kv, elem_row "edge" (Some e))]
                                         | Some DVertex, None => [(fst kv, elem_row "vertex" (Some empty_elem))]
                                         | Some DEdge, None => [(fst kv, elem_row "edge" (Some empty_elem))]
                                         | _, _ => [] end)
-                             (match t_sel t with Some l => l | None => [] end)))]
+                             (match t_sel t with Some l => l | None => [] end))))]
   | DRender => JMap [("render", match t_render t with Some v => v | None => JNull end)]
   | DPath => JMap [("path", JList (map prow (t_path t)))]
   | _ => JNull
